@@ -230,6 +230,10 @@ def run_small_scope(ctx, cfg):
         counts = {}
         eng = hist.Engine(t, workdir, name='ss_' + t['name'], count=counts)
         eng.stop_on_taint = cfg.get('stop_on_taint', True)
+        # every second focus: objects are first seen as unloaded references wherever a referring object exists
+        svr = 'always' if ji % 2 else False
+        eng.seed_via_refs = svr
+        eng.replay_kw = {'post': (lambda e, svr=svr: setattr(e, 'seed_via_refs', svr))}
         try:
             pop_ops = populate(eng, rng)
             alphabet = rel_alphabet(eng, f[1], f[2]) if f[0] == 'rel' else key_alphabet(eng, f[1], f[2])
@@ -265,7 +269,7 @@ def run_small_scope(ctx, cfg):
                     # population + sequence: replayable from an empty database (classification replays, --replay)
                     full = pop_ops + ops
                     fid = hfindings.classify(ctx.pid, r, eng, full)
-                    w = {'spec': t, 'focus': list(map(str, f)), 'ops': full, 'sequence': ops, 'report': r.as_dict(), 'mode': 'small-scope'}
+                    w = {'spec': t, 'focus': list(map(str, f)), 'ops': full, 'sequence': ops, 'report': r.as_dict(), 'mode': 'small-scope', 'seed_via_refs': svr}
                     if fid: ctx.finding(fid, w)
                     else: ctx.violation(w, mechanism='smallscope.%s.%s' % (r.monitor, r.kind))
                 restore_baseline(eng, base_rows, base_model)
